@@ -93,6 +93,13 @@ func TestExhaustiveDefaultFormat(t *testing.T) {
 				n++
 			}
 		}
+		// a request dumped in every format incl. AUTO (refused, or else labelled as what the body really is)
+		for _, f := range append([]uint8{dsd.AUTO}, mimeFormats...) {
+			for _, v := range valuesFor(def) {
+				checkRequest(t, f, v)
+				n++
+			}
+		}
 		for _, h := range []string{"", "*", "*/*", "text/*", "text/html, */*;q=0.1", "xml,*"} {
 			for _, v := range valuesFor(def) {
 				chosen, dumped := checkResponse(t, h, acceptInfo{wildcard: true}, v)
